@@ -38,6 +38,11 @@ CLAIMED = {
             "order independence, path agreement and operand preservation", "§4 C11"),
     "C12": ("bounded symbolic execution of all conversion variants and droplet properties in dims 1-3; z3 decides "
             "round trips, variant agreement, derivative sandwich for all r>=0, V>=0, h>0", "§4 C12"),
+    "C18": ("bounded symbolic execution of locate_droplets threshold dispatch / binarisation / size filters and of "
+            "threshold_otsu on symbolic field values (Cartesian 1D 4 cells, 2D 2x2, polar 3; Otsu on 4-5 values with "
+            "2-4 bins, histogram by its definition); z3 decides binary image = field > documented threshold, Otsu = "
+            "first maximiser of the between-class variance, invariance under positive affine maps, filter = radius > "
+            "minimal radius before and after (contract-stubbed) refinement", "§4 C18"),
     "C19": ("bounded symbolic execution of locate_droplets (class selection, from_droplet, refine_droplet promotion, "
             "Emulsion dtype bookkeeping) over 7 grid families x modes 0-3 x width {unset, 0, symbolic} x refine; "
             "binary-image locator replaced by symbolic candidates, least_squares by a contract stub; z3/rewriter "
